@@ -297,11 +297,12 @@ def julianDateToDatetime(julian_date):
         datetime: Converted ``datetime`` object.
     """
     year, month, day, hour, minute, second = julian_date.calendar_date
-    date_time = datetime(int(year), int(month), int(day), int(hour), int(minute), int(second))
     # Handle floating-point error in JulianDate -> calendar date/time conversion
     # [NOTE] This implementation assumes that time steps will always be multiples of whole seconds.
-    if int(second) != second and round(second) == 60:
-        date_time += timedelta(seconds=1)
+    # [NOTE] A Julian date only resolves ~1e-5 sec, so the seconds come back as e.g. 6.99998 for `:07`: round to
+    #   the nearest whole second (carrying into the minute via `timedelta`) instead of truncating.
+    date_time = datetime(int(year), int(month), int(day), int(hour), int(minute))
+    date_time += timedelta(seconds=round(second))
 
     return date_time
 
